@@ -32,8 +32,10 @@ def signal_noise(response):
                                # estimate of the signal
 
     # Return TimeSeries objects with the sampling rate of the input:
-    return  (ts.TimeSeries(signal, sampling_rate=response.sampling_rate),
-             ts.TimeSeries(noise, sampling_rate=response.sampling_rate))
+    return  (ts.TimeSeries(signal, sampling_rate=response.sampling_rate,
+                           t0=response.t0, time_unit=response.time_unit),
+             ts.TimeSeries(noise, sampling_rate=response.sampling_rate,
+                           t0=response.t0, time_unit=response.time_unit))
 
 
 class SNRAnalyzer(BaseAnalyzer):
